@@ -282,7 +282,7 @@ def shrink_failure(mod, case, scratch, which='bad_prop', rounds=6, pred=None):
 def run_property(mod, tier, seed, replay=None):
     t0 = time.time()
     prop = mod.PROP
-    known = [k for k in load_known() if k['property'] == prop]
+    known = [k for k in load_known() if k['property'] == prop or prop in k.get('also', [])]
     open_known = {k['id']: k for k in known if k.get('status') == 'open'}
     scratch = tempfile.mkdtemp(prefix='verif_%s_' % prop)
     violations = []     # (replay path, suffix)
